@@ -1,6 +1,8 @@
 """C17 - DFE integration is the documented quadrature of a schedule-independent cache."""
 import logging
 import math
+import os
+import signal
 import warnings
 
 import numpy as np
@@ -29,7 +31,8 @@ REG = Registry(
 
 # --------------------------------------------------------------------------------------------- synthetic models
 class Model1D:
-    def __init__(self, seed, n, blind=False, fail_at=None):
+    def __init__(self, seed, n, blind=False, fail_at=None, die=False):
+        self.die, self.creator = die, os.getpid()
         rs = np.random.RandomState(seed)
         self.base = rs.uniform(0.5, 3.0, n + 1)
         self.rate = rs.uniform(0.05, 1.0, n + 1)
@@ -40,6 +43,10 @@ class Model1D:
     def __call__(self, params, ns, pts):
         g = params[-1]
         if self.fail_at is not None and g == self.fail_at:
+            if self.die:
+                if os.getpid() != self.creator:
+                    os._exit(3)             # the worker process dies without a trace (as a segfault or the OOM killer would do)
+                return dadi.Spectrum(self.base.copy())
             raise ValueError('synthetic failure at gamma=%r' % g)
         if self.blind:
             return dadi.Spectrum(self.base.copy())
@@ -47,7 +54,8 @@ class Model1D:
 
 
 class Model2D:
-    def __init__(self, seed, n1, n2, blind=False, fail_at=None, flavour=0.0):
+    def __init__(self, seed, n1, n2, blind=False, fail_at=None, flavour=0.0, die=False):
+        self.die, self.creator = die, os.getpid()
         rs = np.random.RandomState(seed)
         self.base = rs.uniform(0.5, 3.0, (n1 + 1, n2 + 1))
         self.r1 = rs.uniform(0.05, 1.0, (n1 + 1, n2 + 1))
@@ -60,6 +68,10 @@ class Model2D:
     def __call__(self, params, ns, pts):
         g1, g2 = params[-2], params[-1]
         if self.fail_at is not None and (g1, g2) == tuple(self.fail_at):
+            if self.die:
+                if os.getpid() != self.creator:
+                    os._exit(3)
+                return dadi.Spectrum(self.base.copy())
             raise ValueError('synthetic failure at gammas=%r' % ((g1, g2),))
         if self.blind:
             return dadi.Spectrum(self.base.copy())
@@ -352,7 +364,7 @@ def r4(case, rec):
 @st.composite
 def fault_case(draw):
     return dict(grid=draw(grid_case(max_pts=6)), seed=draw(st.integers(0, 2 ** 31 - 1)), n1=2, n2=2, n=draw(st.integers(3, 5)),
-                kind=draw(st.sampled_from(['raise-1d', 'raise-2d', 'missing', 'conflict', 'duplicate'])),
+                kind=draw(st.sampled_from(['raise-1d', 'raise-2d', 'die-1d', 'die-2d', 'missing', 'conflict', 'duplicate'])),
                 cpus=draw(st.sampled_from([1, 2, 3])), idx=draw(st.integers(0, 10 ** 6)), split=draw(st.integers(2, 5)),
                 subset_seed=draw(st.integers(0, 2 ** 31 - 1)))
 
@@ -364,24 +376,41 @@ def r5(case, rec):
     rec.case(case, True, [case['kind'], 'cpus=%d' % case['cpus']])
     g = case['grid']
     gam = np.concatenate((-np.logspace(np.log10(g['hi']), np.log10(g['lo']), g['pts']), list(g['add'])))
-    if case['kind'].startswith('raise'):
-        if case['kind'] == 'raise-1d':
+    if case['kind'].startswith('raise') or case['kind'].startswith('die'):
+        die = case['kind'].startswith('die')
+        cpus = max(2, case['cpus']) if die else case['cpus']       # a worker can only die where there are worker processes
+        if case['kind'].endswith('1d'):
             target = gam[case['idx'] % len(gam)]
-            model = Model1D(case['seed'], case['n'], fail_at=target)
+            model = Model1D(case['seed'], case['n'], fail_at=target, die=die)
             build = lambda: Cache1D([0.7], [case['n']], model, [20], gamma_bounds=(g['lo'], g['hi']), gamma_pts=g['pts'],
-                                    additional_gammas=list(g['add']), cpus=case['cpus'])
+                                    additional_gammas=list(g['add']), cpus=cpus)
         else:
             target = (gam[case['idx'] % len(gam)], gam[(case['idx'] // 7) % len(gam)])
-            model = Model2D(case['seed'], 2, 2, fail_at=target)
+            model = Model2D(case['seed'], 2, 2, fail_at=target, die=die)
             build = lambda: Cache2D([0.7], [2, 2], model, [20], gamma_bounds=(g['lo'], g['hi']), gamma_pts=g['pts'],
-                                    additional_gammas=list(g['add']), cpus=case['cpus'])
+                                    additional_gammas=list(g['add']), cpus=cpus)
         import io, contextlib
+
+        class _Hang(Exception):
+            pass
+
+        def _alarm(*a):
+            raise _Hang()
+        old = signal.signal(signal.SIGALRM, _alarm)
+        signal.alarm(180)
         try:
             with contextlib.redirect_stderr(io.StringIO()):
                 c = build()
+        except _Hang:
+            raise Violation('%s: cache construction with %d processes did not return within 180 s after a worker %s at gamma=%r'
+                            % (case['kind'], cpus, 'died' if die else 'raised', target))
         except Exception:
             return
-        raise Violation('%s: the model raised at gamma=%r but cache construction with %d process(es) completed silently' % (case['kind'], target, case['cpus']))
+        finally:
+            signal.alarm(0)
+            signal.signal(signal.SIGALRM, old)
+        raise Violation('%s: %s at gamma=%r but cache construction with %d process(es) completed silently'
+                        % (case['kind'], 'a worker process died' if die else 'the model raised', target, cpus))
     model = Model2D(case['seed'], 2, 2)
     split = case['split']
     parts = [build_cache2d(case, model, cpus=1, split_jobs=split, this_job_id=j) for j in range(split)]
